@@ -37,7 +37,8 @@ def icc_reference(data):
 
 
 def bit_config():
-    return M().config.config['bit_config']
+    from . import packaged
+    return packaged.bit_config()
 
 
 def bitmap_bytes(bits, bit1=True):
